@@ -102,7 +102,7 @@ def run_instance(inst):
             b2 = dl.bearing_radians(p[0], p[1], lat2, lon2)
             d2 = dl.distance_haversine_radians(p[0], p[1], lat2, lon2)
             return dict(p=p, b=b, delta=delta, q=(lat2, lon2), b2=b2, d2=d2)
-        if kind in ('dps_equator', 'dps_equator_swap', 'dps_meridian', 'dps_near_start', 'dps_near_end'):
+        if kind in ('dps_equator', 'dps_equator_swap', 'dps_meridian', 'dps_near_start', 'dps_near_end', 'dps_short_equator', 'dps_short_meridian'):
             import fractions
             p = pt('p')
             e.assume(p[0].c > 0)
@@ -113,7 +113,11 @@ def run_instance(inst):
                 e.assume(z3.And(p[0].s > z3.Q(1, 10 ** 6), p[0].s < z3.Q(1, 1000)))
             zero = A.Ang(z3.RealVal(0), z3.RealVal(1), 'half')
             small = A.Ang.rational(fractions.Fraction(1, 100000), 'half')      # ~1.27 km on the 6371 km sphere
-            if kind == 'dps_meridian':
+            if kind.startswith('dps_short'):
+                # a segment of about 3 m (decimetre-to-metre scale of the property), query point within a few segment lengths
+                small = A.Ang.rational(fractions.Fraction(25, 10 ** 8), 'half')
+                e.assume(z3.And(p[0].s > -z3.Q(2, 10 ** 6), p[0].s < z3.Q(2, 10 ** 6), p[1].s > -z3.Q(2, 10 ** 6), p[1].s < z3.Q(2, 10 ** 6), p[1].c > 0))
+            if kind in ('dps_meridian', 'dps_short_meridian'):
                 s1, s2 = (zero, zero), (small, zero)
             else:
                 s1, s2 = (zero, zero), (zero, small)
@@ -176,6 +180,15 @@ def run_instance(inst):
                 da = (d / R).as_angle() if isinstance(d, A.Arc) else None
                 if da is not None:
                     cl.append(('reported_distance_is_the_distance_to_the_reported_point', da.c == A.dot(P, PI)))
+                if kind.startswith('dps_short') or kind.startswith('dps_near'):
+                    # independent of how the code computes the point: no point W of the segment (equator / meridian arc from the origin,
+                    # so W is a (sin, cos) pair) is nearer to P than the reported point, i.e. has a larger dot product with P
+                    ws, wc = z3.Reals('w!s w!c')
+                    on_seg = z3.And(ws * ws + wc * wc == 1, wc > 0, ws >= 0, ws <= s2[0 if 'meridian' in kind else 1].s)
+                    W = (wc, z3.RealVal(0), ws) if 'meridian' in kind else (wc, ws, z3.RealVal(0))
+                    # robust twin: some segment point is nearer by more than ~2 cm at 3 m (difference of cosines 1.5e-15)
+                    cl.append(('no_segment_point_is_nearer_than_the_reported_point', z3.Implies(on_seg, A.dot(P, W) <= A.dot(P, PI)),
+                               z3.Implies(on_seg, A.dot(P, W) <= A.dot(P, PI) + z3.Q(15, 10 ** 16))))
             if kind.endswith('swap'):
                 d2, pi2, ti2 = v['r2']
                 if isinstance(pi[0], A.Ang) and isinstance(pi2[0], A.Ang):
@@ -432,7 +445,7 @@ def main(tier):
                              dl.box_around_point, dl.distance_segment_to_segment)
     budget = 150 if tier == 'quick' else 900
     TIMEOUT_MS[0] = 8000 if tier == 'quick' else 60000
-    res = run_instances(run_instance, [(k, budget) for k in ('distance', 'destination', 'dps', 'dps_swap', 'box', 'dps_equator', 'dps_equator_swap', 'dps_meridian', 'dps_near_start', 'dps_near_end', 'dss_structure')])
+    res = run_instances(run_instance, [(k, budget) for k in ('distance', 'destination', 'dps', 'dps_swap', 'box', 'dps_equator', 'dps_equator_swap', 'dps_meridian', 'dps_near_start', 'dps_near_end', 'dps_short_equator', 'dps_short_meridian', 'dss_structure')])
     rep.bounds = dict(domain="all latitudes in [-90,90] and longitudes (angles as exact (sin,cos) pairs); destination: distance in (0, pi R); box: radius < ~10 km, |lat| < 60 deg",
                       claims="exact identities of spherical trigonometry against 3-D unit vectors; inconclusive (solver unknown) paths are reported as such")
     rep.outside = ["numerical agreement 'within centimetres' of distance_segment_to_segment (local planar frame): an error bound on a transcendental approximation, not expressible; decided instead: the structure of the function over symbolic stand-ins of the geodesic primitives (dss_structure)",
